@@ -575,6 +575,37 @@ func TestC03_HelperMatrix(t *testing.T) {
 			}
 		}
 	}
+	// vendor-specific information (option 17) for every enterprise number the tree knows (harvested from
+	// iana/entid.go at check time) and a few others × sub-option codes 0..64, 255, 65535 × payloads of 0, 1, 16 and
+	// 32 octets: a vendor-specific sub-option parser or extractor is reached whatever its enterprise and code are
+	entNums := []uint32{0, 9, 1271, 2636, 30065, 33049, 0xffffffff}
+	if b, err := os.ReadFile(filepath.Join(repoDir(), "iana", "entid.go")); err == nil {
+		for _, m := range regexp.MustCompile(`EnterpriseID\s*=\s*(\d+)`).FindAllStringSubmatch(string(b), -1) {
+			if v, err := strconv.ParseUint(m[1], 10, 32); err == nil {
+				entNums = append(entNums, uint32(v))
+			}
+		}
+	}
+	seenEnt := map[uint32]bool{}
+	for _, ent := range entNums {
+		if seenEnt[ent] {
+			continue
+		}
+		seenEnt[ent] = true
+		var codes []int
+		for c := 0; c <= 64; c++ {
+			codes = append(codes, c)
+		}
+		codes = append(codes, 255, 65535)
+		for _, code := range codes {
+			for _, n := range []int{0, 1, 16, 32} {
+				pl := bytes.Repeat([]byte{0x20}, n)
+				vo := []byte{0, 17, 0, byte(8 + n), byte(ent >> 24), byte(ent >> 16), byte(ent >> 8), byte(ent), byte(code >> 8), byte(code), 0, byte(n)}
+				vo = append(vo, pl...)
+				c03.one(t, c03Case{Entry: "v6", B: append([]byte{1, 1, 2, 3}, vo...)})
+			}
+		}
+	}
 	// netboot: every subset / order of {ADVERTISE, REPLY, SOLICIT} with and without IA_NA and boot file URL
 	mk := func(typ byte, iana, url bool) []byte {
 		m := []byte{typ, 9, 9, 9}
